@@ -249,6 +249,9 @@ func solveOnce(rep *FuncReport, o *Obligation, dir string, idx int, timeoutS, se
 }
 
 // SolveAll discharges all obligations of a set of reports in parallel.
+// knownOpen: obligation base names recorded as open known findings of the property being checked
+var knownOpen = map[string]bool{}
+
 func SolveAll(reps []*FuncReport, dir string, timeoutS, seed, need, workers int) {
 	type job struct {
 		rep *FuncReport
@@ -270,6 +273,12 @@ func SolveAll(reps []*FuncReport, dir string, timeoutS, seed, need, workers int)
 		go func() {
 			defer wg.Done()
 			for j := range ch {
+				if knownOpen[oblBase(j.o.Name)] {
+					// an obligation recorded as an open known finding is expected to fail: a short
+					// attempt decides whether it still does (it is reported either way, never hidden)
+					j.o.Result = Solve(j.rep, j.o, dir, j.idx, 4, seed, need)
+					continue
+				}
 				j.o.Result = Solve(j.rep, j.o, dir, j.idx, timeoutS, seed, need)
 			}
 		}()
@@ -284,7 +293,7 @@ func SolveAll(reps []*FuncReport, dir string, timeoutS, seed, need, workers int)
 	// obligations mean the code really changed; they are not retried.
 	var retry []job
 	for _, j := range jobs {
-		if j.o.Result != nil && j.o.Result.Status == "unknown" && j.o.Expect != "sat" {
+		if j.o.Result != nil && j.o.Result.Status == "unknown" && j.o.Expect != "sat" && !knownOpen[oblBase(j.o.Name)] {
 			retry = append(retry, j)
 		}
 	}
